@@ -4,6 +4,7 @@
 //
 //	listing      unit/system: populate the real pipe.Service with a name set, call GetPipes repeatedly
 //	             (Go randomises map order per call) — IMPL vs MODEL (getPipes) vs SPEC (sorted set)
+//	saverace     concurrent creates vs the registry file (hook-parked), crash image compared with the model's transition system
 //	history      system: random create/ensure/delete/get/show/describe/restart sequences through
 //	             Admin.Execute, the RPC Pipes API and pipe.Service — IMPL vs MODEL (registry) vs SPEC (a Go map)
 //	paging       SHOW PIPES OFFSET/LIMIT walks — pages concatenate to the listing, each pipe once
@@ -782,6 +783,161 @@ func sectionRace(rng *vh.Rng) {
 	res.Done(sec)
 }
 
+// ---------------------------------------------------------------------------------------------
+// concurrent creates and the registry file
+
+// sectionSaveRace: two or three callers create DIFFERENT fresh names. The first caller is parked inside savePipes right after it
+// took its snapshot of the registry (hook pipe.save.afterSnapshot); the others run to completion meanwhile — or block, when
+// savePipes is serialized — then the first is released. Afterwards the directory is started as a crash image: every definition
+// whose creator was told "created" must be there (SPEC), and the names on disk / the acknowledged callers must be what the
+// model's transition system gives for the schedule that was executed (MODEL: srun with the regenerated savePipesSerialized).
+func sectionSaveRace(rng *vh.Rng) {
+	sec := res.Section("saverace", "system-correspondence",
+		"K=2..3 callers create different fresh names; caller 0 is parked between savePipes' snapshot and its write (hook), the others are started one after the other and given 150 ms to finish, then caller 0 is released; the directory is then started as a crash image. SPEC: every acknowledged definition is in the started registry. MODEL: names on disk and acknowledged callers of srun for the executed schedule. non-trivial = every case")
+	if !verifhook.Enabled {
+		res.Note("saverace: hooks are not compiled in")
+		res.Done(sec)
+		return
+	}
+	n := 4
+	if args.Thorough {
+		n = 40
+	}
+	var lines, impls []string
+	var inputs []map[string]interface{}
+	for c := 0; c < n; c++ {
+		k := rng.Range(2, 3)
+		l, im, in := runSaveRace(k, fmt.Sprintf("sr%d", c))
+		if l == "" {
+			continue
+		}
+		res.Eval(sec, fmt.Sprint(c, k))
+		res.Dist(sec, fmt.Sprintf("k=%d", k))
+		lines, impls, inputs = append(lines, l), append(impls, im), append(inputs, in)
+	}
+	ans, err := vh.Batch(args.Driver, lines)
+	if err != nil {
+		res.Fatal(args.Out, "driver: %v", err)
+	}
+	for i := range lines {
+		if ans[i] != impls[i] {
+			res.Mismatch(vh.Mismatch{Section: "saverace", Function: "pipe.Service.CreatePipe + savePipes: " + lines[i], Input: inputs[i], Impl: impls[i], Model: ans[i]})
+		}
+	}
+	res.Done(sec)
+}
+
+// runSaveRace runs one parked schedule; returns the model line, the implementation's answer in the model's format and the input
+func runSaveRace(k int, prefix string) (string, string, map[string]interface{}) {
+	dir := lrsrv.NewDir()
+	defer func() { os.RemoveAll(dir) }()
+	srv, err := lrsrv.Start(dir, lrsrv.Opts{NoRPC: true})
+	if err != nil {
+		res.Note("saverace: %v", err)
+		return "", "", nil
+	}
+	defer func() { srv.Stop() }()
+	names := make([]string, k)
+	for i := range names {
+		names[i] = fmt.Sprintf("%s%c", prefix, 'a'+i)
+	}
+	in := map[string]interface{}{"names": names, "program": "caller 0 parked after its snapshot; callers 1.. run; caller 0 released"}
+	gate := make(chan struct{})
+	arrived := make(chan struct{}, 1)
+	var once sync.Once
+	verifhook.Set("pipe.save.afterSnapshot", func() {
+		first := false
+		once.Do(func() { first = true })
+		if first {
+			arrived <- struct{}{}
+			<-gate
+		}
+	})
+	defer verifhook.Set("pipe.save.afterSnapshot", nil)
+	oks := make([]bool, k)
+	returned := make([]chan struct{}, k)
+	create := func(i int) {
+		returned[i] = make(chan struct{})
+		go func() {
+			defer close(returned[i])
+			_, err := srv.Pipes.CreatePipe(pipe.Pipe{Name: names[i], TagsCond: fmt.Sprintf("a=%d", i)})
+			oks[i] = err == nil
+		}()
+	}
+	create(0)
+	select {
+	case <-arrived:
+	case <-time.After(5 * time.Second):
+		res.Note("saverace: caller 0 did not reach the hook")
+		close(gate)
+		return "", "", nil
+	}
+	// the executed schedule in the model's steps: caller 0: check, register, snapshot
+	sched := []int{0, 0, 0}
+	blocked := []int{}
+	for i := 1; i < k; i++ {
+		create(i)
+		select {
+		case <-returned[i]:
+			// ran to the end while caller 0 is parked: check, register, snapshot, write
+			sched = append(sched, i, i, i, i)
+		case <-time.After(150 * time.Millisecond):
+			// blocked (on the save mutex): it has done check and register
+			sched = append(sched, i, i)
+			blocked = append(blocked, i)
+		}
+	}
+	close(gate)
+	<-returned[0]
+	sched = append(sched, 0) // caller 0's write
+	for _, i := range blocked {
+		<-returned[i]
+		sched = append(sched, i, i)
+	}
+	in["schedule"] = sched
+	// crash image: the directory as it is, started as a new server
+	dir2 := lrsrv.NewDir()
+	defer os.RemoveAll(dir2)
+	if cerr := copyDir(dir, dir2); cerr != nil {
+		res.Note("saverace: copying the directory: %v", cerr)
+		return "", "", nil
+	}
+	srv2, err := lrsrv.Start(dir2, lrsrv.Opts{NoRPC: true})
+	if err != nil {
+		res.SpecFail(vh.SpecFailure{Section: "saverace", Kind: "restart-refused", Input: in, Impl: err.Error(), Spec: "starts", What: "the server must start on the directory as it is"})
+		return "", "", nil
+	}
+	onDisk := pipeNames(srv2.Pipes.GetPipes())
+	srv2.Stop()
+	sort.Strings(onDisk)
+	have := map[string]bool{}
+	for _, n := range onDisk {
+		have[n] = true
+	}
+	var acked []string
+	for i, ok := range oks {
+		if ok {
+			acked = append(acked, fmt.Sprint(i))
+			if !have[names[i]] {
+				res.SpecFail(vh.SpecFailure{Section: "saverace", Kind: "acknowledged-create-not-on-disk", Input: in,
+					Impl: fmt.Sprintf("on disk: %q", onDisk), Spec: fmt.Sprintf("contains %q", names[i]),
+					What: "a pipe whose creation was acknowledged is not in the registry file: a crash now loses it"})
+			}
+		}
+	}
+	hn := make([]string, k)
+	for i, n := range names {
+		hn[i] = vh.HxS(n)
+	}
+	ss := make([]string, len(sched))
+	for i, a := range sched {
+		ss[i] = fmt.Sprint(a)
+	}
+	line := fmt.Sprintf("saverace %s %s", strings.Join(hn, ","), strings.Join(ss, " "))
+	impl := strings.TrimRight(fmt.Sprintf("disk %s acked %s", hexNames(onDisk), strings.Join(acked, " ")), " ")
+	return line, impl, in
+}
+
 // replay re-executes one recorded input (a replay file written by /verif/check, or a corpus entry)
 func replay(path string) {
 	var rp struct {
@@ -820,6 +976,24 @@ func replay(path string) {
 			if outs[i] != impls[i] {
 				res.Mismatch(vh.Mismatch{Section: "history", Function: "registry op: " + lines[i], Input: h, Impl: impls[i], Model: outs[i]})
 				break
+			}
+		}
+	case "saverace":
+		var c struct {
+			Names []string `json:"names"`
+		}
+		json.Unmarshal(rp.Input, &c)
+		res.Section("saverace", "replay", "replay of the parked save schedule with as many callers as recorded")
+		k := len(c.Names)
+		if k < 2 {
+			k = 2
+		}
+		line, impl, in := runSaveRace(k, "rp")
+		if line != "" {
+			outs, _ := vh.Batch(args.Driver, []string{line})
+			fmt.Printf("%s\n  impl=%s\n  model=%s\n", line, impl, outs[0])
+			if outs[0] != impl {
+				res.Mismatch(vh.Mismatch{Section: "saverace", Function: "pipe.Service.CreatePipe + savePipes: " + line, Input: in, Impl: impl, Model: outs[0]})
 			}
 		}
 	default:
@@ -1030,5 +1204,6 @@ func main() {
 	sectionRace(rng.Fork("race"))
 	sectionEnsureRace(rng.Fork("ensure-race"))
 	sectionRestart(rng.Fork("restart"))
+	sectionSaveRace(rng.Fork("saverace"))
 	res.Write(args.Out)
 }
